@@ -31,7 +31,10 @@ class Run:
         self.programs, self.ops, self.sems, self.opts = programs, ops, sems, opts
         self.extra, self.known_key, self.seed_off, self.release = list(extra), known_key, seed_off, release
         if plan == "NoGC":
+            # nothing is ever reclaimed: the model keeps every object, keep the runs short
             self.heap = 3000
+            self.programs = min(self.programs, 4)
+            self.ops = min(self.ops, 120)
         if known_key is None and plan in EXCLUDED_SEMS:
             # Recorded defects (KNOWN_FINDINGS.json): ordinary runs stay clear of the semantics
             # that trigger them under this plan; the dedicated probe runs exercise them.
@@ -56,9 +59,9 @@ def matrix(tier, focus="general"):
     runs = []
     if tier == "quick":
         for p in PLANS:
-            runs.append(Run(p, programs=8))
-            runs.append(Run(p, feats=["vo_bit"], name="small", heap=8, workers=4, programs=6,
-                            ops=200, seed_off=1))
+            runs.append(Run(p, programs=6, ops=140))
+            runs.append(Run(p, feats=["vo_bit"], name="small", heap=8, workers=4, programs=5,
+                            ops=180, seed_off=1))
     else:
         for p in PLANS:
             for i, w in enumerate([1, 2, 4, 8]):
@@ -83,7 +86,9 @@ def matrix(tier, focus="general"):
                             opts="immix_stress_defrag=true"))
         runs.append(Run("StickyImmix", feats=["sticky_immix_non_moving_nursery"], name="sxnm",
                         programs=20, seed_off=16))
-    # the recorded MarkCompact + NonMoving defect: exercised on purpose, reported as KNOWN-FINDING
+    if focus != "general":
+        return runs
+    # recorded defects (registered under C01): exercised on purpose, reported as KNOWN-FINDING
     runs.append(Run("MarkCompact", name="nonmoving-probe", sems="0,0,6,6,6", programs=6,
                     known_key="MarkCompact+NonMoving"))
     runs.append(Run("Compressor", name="immortal-referrer-probe", sems="0,0,1,6", programs=6,
